@@ -63,3 +63,43 @@ Theorem C08_exactly_once :
   tables_ok c -> api_join c = Some out -> missing_spec c out = true.
 Proof. exact (api_join_missing_spec hpart_cpus_bounded). Qed.
 Print Assumptions C08_exactly_once.
+
+(* tie of the pair-level path to the source: filter_pair of SizeFilter / PrefixFilter /
+   PositionFilter / OverlapFilter, as REGENERATED on this run (Gen/FilterPairGen.v: missing-value
+   test, tokenization, pair-level token ordering, prefix lengths, position loop, allow_empty /
+   allow_missing handling, comp_op lookup), returns exactly the verdict of the hand model
+   (Spec/FilterSpec.v model_filter_pair) -- no state may be kept on the filter object *)
+From SSJ Require Import FilterPairGen FilterPairRefineBase FilterPairRefine FilterPairRefinePos FilterPairRefineSpec FilterPairRefineArith.
+Theorem generated_filter_pair_refines_model :
+  ltac:(let t := type of filter_pair_gen_refines_model in exact t).
+Proof. exact filter_pair_gen_refines_model. Qed.
+Check generated_filter_pair_refines_model.
+Print Assumptions generated_filter_pair_refines_model.
+Theorem generated_position_filter_pair_jcd :
+  ltac:(let t := type of position_filter_pair_gen_jcd in exact t).
+Proof. exact position_filter_pair_gen_jcd. Qed.
+Print Assumptions generated_position_filter_pair_jcd.
+
+(* ---- tie: the public wrappers jaccard_join_py / cosine_join_py / dice_join_py as REGENERATED from the
+   source on this run (Gen/WrapperGen.v: DataFrames as values of Model/Frame.v, validators and the
+   tokenizer flag handled by the shape checks of harness/translate/wrappers.py) compute -- through
+   dropna / projection / split_table / the per-chunk loop / concat / missing-value pairs / _id --
+   a frame whose header is header_spec and whose rows are, up to the order within a chunk, the rows
+   of api_join with the declared projection *)
+From SSJ Require Import Frame WrapperGen WrapperRefineFrame WrapperRefineChunks WrapperRefineMissing WrapperRefineCore WrapperRefine WrapperRefineClosed WrapperRefineApi WrapperRefineEnd.
+Theorem generated_jaccard_wrapper_refines_model :
+  ltac:(let t := type of jaccard_join_rows_end_to_end in exact t).
+Proof. exact jaccard_join_rows_end_to_end. Qed.
+Print Assumptions generated_jaccard_wrapper_refines_model.
+Theorem generated_cosine_wrapper_refines_model :
+  ltac:(let t := type of cosine_join_rows_end_to_end in exact t).
+Proof. exact cosine_join_rows_end_to_end. Qed.
+Print Assumptions generated_cosine_wrapper_refines_model.
+Theorem generated_dice_wrapper_refines_model :
+  ltac:(let t := type of dice_join_rows_end_to_end in exact t).
+Proof. exact dice_join_rows_end_to_end. Qed.
+Print Assumptions generated_dice_wrapper_refines_model.
+Theorem generated_missing_pairs_code_refines_model :
+  ltac:(let t := type of get_pairs_with_missing_value_eq in exact t).
+Proof. exact get_pairs_with_missing_value_eq. Qed.
+Print Assumptions generated_missing_pairs_code_refines_model.
